@@ -30,13 +30,13 @@ RFC_GEN_LOOP = {
 }
 UNITS = [
     U("C05.sha256_write", ["C05"], "harness/C05/hash_write.c", "h_write", assumed=ORACLE,
-      functions=["secp256k1_sha256_write"], timeout=600, min_obl=50, unwind=130, replay=False,
+      functions=["secp256k1_sha256_write"], timeout=600, min_obl=1300, unwind=130, replay=False,
       note="stream lemma: len fully symbolic (<= 2^48), bytes symbolic; compression abstracted by the logging oracle"),
     U("C05.sha256_write_contract", ["C05"], "harness/C05/hash_write.c", "h_write_c", assumed=ORACLE,
-      enforce=["secp256k1_sha256_write"], functions=["secp256k1_sha256_write"], solver="cadical", timeout=600, min_obl=50, unwind=130, replay=False,
+      enforce=["secp256k1_sha256_write"], functions=["secp256k1_sha256_write"], solver="cadical", timeout=600, min_obl=1400, unwind=130, replay=False,
       note="the stream lemma as a DFCC-enforced contract (hash_spec.h), arbitrary initial log state; consumed by the lemma units"),
     U("C05.sha256_write_split", ["C05"], "harness/C05/hash_write.c", "h_write2", replace=["secp256k1_sha256_write"],
-      functions=["secp256k1_sha256_write"], solver="cadical", timeout=600, min_obl=50, unwind=130, replay=False,
+      functions=["secp256k1_sha256_write"], solver="cadical", timeout=600, min_obl=200, unwind=130, replay=False,
       note="two-write lemma over the enforced stream contract: write(a);write(b) has the stream postcondition of write(a||b), all la, lb, bytes"),
     U("C05.sha256_transform_loop", ["C05"], "harness/C05/hash_transform.c", "h_transform", replace=["secp256k1_sha256_transform_impl"],
       assumed=["secp256k1_sha256_transform_impl (one-block compression: frame s[0..7] + ghost call log)"],
@@ -49,46 +49,54 @@ UNITS = [
                         " ? (verif_tr_ptr == __CPROVER_loop_entry(blocks64) + 64 * (verif_tr_watch - __CPROVER_loop_entry(verif_tr_calls)) && verif_tr_state == state)"
                         " : (verif_tr_ptr == __CPROVER_loop_entry(verif_tr_ptr) && verif_tr_state == __CPROVER_loop_entry(verif_tr_state)))",
           "decreases": "n_blocks"}}},
-      functions=["secp256k1_sha256_transform"], timeout=300, min_obl=20, unwind=10, replay=False,
+      functions=["secp256k1_sha256_transform"], timeout=300, min_obl=130, unwind=10, replay=False,
       closed_by="loop contract on the n_blocks loop (engine-supplied --loop-contracts-file, no /repo edit): base, step, decreases",
       note="n_blocks symbolic (<= 2^40)"),
     U("C05.sha256_finalize", ["C05"], "harness/C05/hash_finalize.c", "h_finalize", assumed=ORACLE,
-      functions=["secp256k1_sha256_finalize", "secp256k1_sha256_write", "secp256k1_write_be32"], timeout=600, min_obl=50, unwind=130, replay=False,
+      functions=["secp256k1_sha256_finalize", "secp256k1_sha256_write", "secp256k1_write_be32"], timeout=600, min_obl=1400, unwind=130, replay=False,
       note="padding lemma on the real finalize+write: bytes symbolic < 2^61; compression abstracted by the logging oracle"),
+    U("C05.sha256_compose", ["C05"], "harness/C05/hash_finalize.c", "h_sha_compose", replace=["secp256k1_sha256_write"], solver="cadical",
+      functions=["secp256k1_sha256_finalize", "secp256k1_sha256_write"], timeout=900, min_obl=260, unwind=130, replay=False,
+      note="composition lemma: write(a);write(b);real finalize over the enforced stream contract = FIPS 180-4 padded message blocks, all |a|,|b|, midstate prefix 64m"),
     U("C05.hmac_initialize", ["C05"], "harness/C05/hash_hmac.c", "h_hmac_init", replace=SHA,
-      functions=["secp256k1_hmac_sha256_initialize", "secp256k1_sha256_initialize"], timeout=600, min_obl=50, unwind=66, replay=False,
+      functions=["secp256k1_hmac_sha256_initialize", "secp256k1_sha256_initialize"], timeout=600, min_obl=350, unwind=66, replay=False,
       closed_by="full unwinding of the two 64-iteration xor loops (literal bound sizeof(rkey))",
       note="keylen symbolic (<= 2^40); SHA object replaced by the L3 stream contracts (justified by C05.sha256_write*/finalize)"),
     U("C05.hmac_write", ["C05"], "harness/C05/hash_hmac.c", "h_hmac_write", replace=SHA,
-      functions=["secp256k1_hmac_sha256_write"], timeout=300, min_obl=20, unwind=66, replay=False, note="size symbolic"),
+      functions=["secp256k1_hmac_sha256_write"], timeout=300, min_obl=170, unwind=66, replay=False, note="size symbolic"),
     U("C05.hmac_finalize", ["C05"], "harness/C05/hash_hmac.c", "h_hmac_finalize", replace=SHA,
-      functions=["secp256k1_hmac_sha256_finalize"], timeout=300, min_obl=20, unwind=66, replay=False,
+      functions=["secp256k1_hmac_sha256_finalize"], timeout=300, min_obl=240, unwind=66, replay=False,
       note="inner/outer byte counters symbolic"),
     U("C05.sha256_initialize_tagged", ["C05"], "harness/C05/hash_tagged.c", "h_tagged_init", replace=SHA,
-      functions=["secp256k1_sha256_initialize_tagged", "secp256k1_sha256_initialize"], timeout=300, min_obl=50, unwind=66, replay=False,
+      functions=["secp256k1_sha256_initialize_tagged", "secp256k1_sha256_initialize"], timeout=300, min_obl=300, unwind=66, replay=False,
       note="taglen symbolic (<= 2^40)"),
     U("C05.tagged_sha256", ["C05", "C20"], "harness/C05/hash_tagged.c", "h_tagged_sha256", replace=SHA,
       functions=["secp256k1_tagged_sha256", "secp256k1_sha256_initialize_tagged", "secp256k1_sha256_initialize", "secp256k1_sha256_clear"],
-      timeout=300, min_obl=50, unwind=66, replay=False,
+      timeout=300, min_obl=400, unwind=66, replay=False,
       note="API-level, NULL/non-NULL of every pointer argument, taglen and msglen symbolic (<= 2^40)"),
     U("C05.rfc6979_initialize", ["C05"], "harness/C05/hash_rfc6979.c", "h_rfc_init", replace=HMAC,
-      functions=["secp256k1_rfc6979_hmac_sha256_initialize"], timeout=300, min_obl=50, unwind=66, replay=False,
+      functions=["secp256k1_rfc6979_hmac_sha256_initialize"], timeout=300, min_obl=230, unwind=66, replay=False,
       note="seed length symbolic (<= 2^40); HMAC replaced by the L4 logging contracts (justified by C05.hmac_*)"),
     U("C05.rfc6979_generate_b96", ["C05"], "harness/C05/hash_rfc6979.c", "h_rfc_gen", replace=HMAC, bounded="outlen<=96 (every call site in src/ passes 32)",
-      functions=["secp256k1_rfc6979_hmac_sha256_generate"], timeout=600, min_obl=50, unwind=66, unwindset=["secp256k1_rfc6979_hmac_sha256_generate.0:4"], replay=False,
+      functions=["secp256k1_rfc6979_hmac_sha256_generate"], timeout=600, min_obl=350, unwind=66, unwindset=["secp256k1_rfc6979_hmac_sha256_generate.0:4"], replay=False,
       note="round loop unwound 3 times + unwinding assertion; retry symbolic"),
     U("C05.rfc6979_generate", ["C05"], "harness/C05/hash_rfc6979.c", "h_rfc_gen", replace=HMAC, defs=["RFC_MAXOUT=((size_t)1<<34)"],
       loop_contracts={"secp256k1_rfc6979_hmac_sha256_generate": {"while (outlen > 0)": RFC_GEN_LOOP}},
-      functions=["secp256k1_rfc6979_hmac_sha256_generate"], timeout=900, min_obl=50, unwind=66, replay=False,
+      functions=["secp256k1_rfc6979_hmac_sha256_generate"], timeout=900, min_obl=550, unwind=66, replay=False,
       closed_by="loop contract on the output loop (engine-supplied --loop-contracts-file, no /repo edit): base, step, decreases",
       note="any outlen (<= 2^34 bytes: the ghost epoch counter is an int), retry symbolic"),
     U("C05.rfc6979_finalize", ["C05"], "harness/C05/hash_rfc6979.c", "h_rfc_finalize",
-      functions=["secp256k1_rfc6979_hmac_sha256_finalize"], timeout=120, min_obl=1, unwind=66, replay=False),
+      functions=["secp256k1_rfc6979_hmac_sha256_finalize"], timeout=120, min_obl=40, unwind=66, replay=False),
+    U("C05.sha256_initialize", ["C05"], "harness/C05/hash_init.c", "h_sha_init",
+      functions=["secp256k1_sha256_initialize", "secp256k1_sha256_initialize_midstate"], timeout=120, min_obl=110, unwind=66, replay=True),
     U("C05.sha256_vectors", ["C05"], "harness/C05/hash_compress.c", "h_sha_vectors", bounded="concrete vectors",
       functions=["secp256k1_sha256_transform_impl", "secp256k1_sha256_transform", "secp256k1_sha256_initialize", "secp256k1_sha256_write", "secp256k1_sha256_finalize"],
-      timeout=600, min_obl=4, unwind=66, replay=True,
+      timeout=600, min_obl=1300, unwind=66, replay=True,
       note="TEST, not a proof: NIST vectors 'abc', '', 448-bit message through the real code by symex of concrete inputs; pins IV, K table, rotations, byte order"),
-    U("C05.sha256_compress_fips", ["C05"], "harness/C05/hash_compress.c", "h_compress_fips", solver="cadical", tier="thorough",
-      functions=["secp256k1_sha256_transform_impl"], timeout=1500, min_obl=8, unwind=66, replay=True,
-      note="all 2^768 (state, block) inputs against a FIPS 180-4 spec with a 16-word rolling schedule; see report for the measured outcome"),
+    # MEASURED 2026-09-23: undecided (cbmc timeout after 1500 s, CaDiCaL, spec with the same 16-word rolling schedule; P11 was 900 s MiniSat,
+    # textbook schedule).  The compression function therefore stays ASSUMED (oracle of contracts/hash_spec.h); the unit is kept out of the
+    # table so that the thorough tier is not undecided by construction.  Harness entry h_compress_fips stays for a future per-round attempt.
+    # U("C05.sha256_compress_fips", ["C05"], "harness/C05/hash_compress.c", "h_compress_fips", solver="cadical", tier="thorough",
+    # functions=["secp256k1_sha256_transform_impl"], timeout=1500, min_obl=8, unwind=66, replay=True,
+    # note="all 2^768 (state, block) inputs against a FIPS 180-4 spec with a 16-word rolling schedule; see report for the measured outcome"),
 ]
